@@ -350,5 +350,10 @@ def run(ctx):
     dictops.r_dictops(ctx)
     r_hash(ctx)
     n = r_opsem(ctx)
+    from . import leafprog
+    try:
+        leafprog.r_expression_eval_program(ctx)   # what a combination denotes is what its accessor computes from the leaves
+    except AnalysisError as ex:
+        ctx.notes.append("R-EVALSHAPE program skipped: %s" % ex)
     ctx.floor("operator methods", ctx.analysed.get("operator methods", 0), 20)
     ctx.floor("operator x operand-kind cases", n, 80)
